@@ -28,6 +28,7 @@ typedef struct cell {
 	int wl;        /* workload id */
 	int two;
 	int rl;        /* C11: index+1 into RELAYS[], 0 = relay class from `up` */
+	int v6;        /* IPv6 transport between client and server */
 } cell;
 
 static const char *QT[8] = { "NULL", "PRIVATE", "TXT", "SRV", "MX", "CNAME", "A", "" };
@@ -49,6 +50,7 @@ static void cell_to_cfg(const cell *c, ns_cfg *n)
 	n->lat_up = LAT[c->lat][0]; n->lat_down = LAT[c->lat][1];
 	n->nclients = c->two ? 2 : 1;
 	n->succession = c->two == 2;
+	n->ipv6 = c->v6;
 	n->warm = c->warm;
 	ns_relay *r = &n->relay;
 	switch (c->up) {
@@ -62,8 +64,8 @@ static void cell_to_cfg(const cell *c, ns_cfg *n)
 
 static void cell_desc(const cell *c, char *b, size_t n)
 {
-	int k = snprintf(b, n, "T=%s O=%s up=%d m=%d M=%d lazy=%d raw=%d lat=%d/%d warm=%d wl=%d two=%d", c->qt == 7 ? "auto" : QT[c->qt], c->de ? DE[c->de] : "auto",
-		 c->up, c->fs, c->ml, c->lazy, c->raw, LAT[c->lat][0], LAT[c->lat][1], c->warm, c->wl, c->two);
+	int k = snprintf(b, n, "T=%s O=%s up=%d m=%d M=%d lazy=%d raw=%d lat=%d/%d warm=%d wl=%d two=%d%s", c->qt == 7 ? "auto" : QT[c->qt], c->de ? DE[c->de] : "auto",
+		 c->up, c->fs, c->ml, c->lazy, c->raw, LAT[c->lat][0], LAT[c->lat][1], c->warm, c->wl, c->two, c->v6 ? " ipv6" : "");
 	if (c->rl && k < (int)n) {
 		static const char *CS[] = { "keep", "lower", "upper", "random" }, *E8[] = { "clean", "strip", "reject" }, *PU[] = { "keep", "+->-", "_->-" };
 		const ns_relay *r = &RELAYS[c->rl - 1];
@@ -95,6 +97,13 @@ static void cells_full(int wl, int lat)
 		}
 	/* raw UDP mode (no relay in between): the handshake switches to raw frames after the login */
 	for (int qt = 0; qt < 3; qt += 2) for (int lazy = 1; lazy >= 0; lazy--) { cell c = { qt, 0, 0, 0, 255, lazy, 1, lat, 0, wl, 0 }; add_cell(c); }
+	/* IPv6 transport (the server listens on both families): DNS mode for four record types, and raw UDP mode */
+	for (int qt = 0; qt < 6; qt++) for (int lazy = 1; lazy >= 0; lazy--) for (int raw = 0; raw < 2; raw++) {
+		if (qt == 1 || qt == 3) continue;
+		if (raw && qt != 0) continue;
+		cell c = { qt, 0, 0, qt == 5 ? 50 : 0, 255, lazy, raw, lat, 0, wl, 0, 0, 1 };
+		add_cell(c);
+	}
 }
 
 /* pairwise-covering subset of the grid (greedy, deterministic) */
@@ -129,6 +138,11 @@ static void cells_pairwise(int wl, int lat)
 		add_cell(c);
 	}
 	{ cell c = { 0, 0, 0, 0, 255, 1, 1, lat, 0, wl, 0 }; add_cell(c); }      /* raw UDP mode */
+	/* IPv6 transport: NULL lazy, TXT immediate, MX lazy, and raw UDP mode */
+	{ cell c = { 0, 0, 0, 0, 255, 1, 0, lat, 0, wl, 0, 0, 1 }; add_cell(c); }
+	{ cell c = { 2, 0, 0, 200, 255, 0, 0, lat, 0, wl, 0, 0, 1 }; add_cell(c); }
+	{ cell c = { 4, 0, 0, 200, 255, 1, 0, lat, 0, wl, 0, 0, 1 }; add_cell(c); }
+	{ cell c = { 0, 0, 0, 0, 255, 1, 1, lat, 0, wl, 0, 0, 1 }; add_cell(c); }
 }
 
 /* two real clients behind one server (ea2.c): client-to-client forwarding, two sessions' held queries */
@@ -141,6 +155,8 @@ static void cells_two(void)
 		if ((c.qt == 5) && c.fs > 50) c.fs = 50;
 		add_cell(c);
 	}
+	/* both clients over IPv6 */
+	for (int lazy = 1; lazy >= 0; lazy--) { cell c = { 0, 0, 0, lazy ? 0 : 200, 255, lazy, 0, 0, 0, 2, 1, 0, 1 }; add_cell(c); }
 	/* succession: client A is cut off in mid-transfer, 65 s later client B logs in and inherits A's slot and tunnel address */
 	for (unsigned q = 0; q < sizeof QTS / sizeof QTS[0]; q++) for (int lazy = 1; lazy >= 0; lazy--) for (int f = 0; f < 2; f++) {
 		cell c = { QTS[q], 0, 0, f ? 200 : 0, 255, lazy, 0, 0, 0, 7, 2 };
